@@ -333,6 +333,21 @@ fn progress_bar(counts: &StateCounts, bar_size: usize) -> String {
     bar
 }
 
+#[cfg(feature = "verif")]
+pub(crate) fn verif_task_message(message: &str, seconds: usize, max_cols: usize) -> String {
+    task_message(message, seconds, max_cols)
+}
+
+#[cfg(feature = "verif")]
+pub(crate) fn verif_truncate(s: &str, max: usize) -> &str {
+    truncate(s, max)
+}
+
+#[cfg(feature = "verif")]
+pub(crate) fn verif_progress_bar(counts: &StateCounts, bar_size: usize) -> String {
+    progress_bar(counts, bar_size)
+}
+
 #[cfg(test)]
 mod tests {
     use super::*;
